@@ -7,27 +7,48 @@ name of the rename alphabet, and options whose names contain the text `CONFIG_` 
   mention  every deprecated name of the table occurs in a `default y if <rel>`, a `depends on <rel>` and a
            `select XT if <rel>` condition, so it exists in Kconfig.syms as an undefined, node-less symbol;
   mention_default / mention_depends / mention_select (thorough, 1-line tables): one of the three positions only.
-Rename tables = every 1- and 2-line selection of the alphabet (2-line tables also split over two files); the alphabet has
-old names and new names with an embedded / doubled prefix (CONFIG_OLD_CONFIG_B, CONFIG_CONFIG_OLD_B, CONFIG_E_CONFIG_B ...).
+Rename tables = every 1- and 2-line selection of the alphabet, plus every 3-line ordering of the lines that map one and the
+same old name; the alphabet has old names and new names with an embedded / doubled prefix (CONFIG_OLD_CONFIG_B,
+CONFIG_CONFIG_OLD_B, CONFIG_E_CONFIG_B ...) and one old name with three different targets (CONFIG_B, CONFIG_BH, !CONFIG_B).
+Rename FILES (layouts): the check chooses the names -- <scratch>/<table>/{aa,mm,zz}/sdkconfig.rename -- so that the
+alphabetical order of the listed paths is part of the case and identical when the case is replayed:
+  1 file (mm), the same file listed twice (mm-mm); a 2-line table as 2 files listed in path order (aa-zz), against path
+  order (zz-aa), and with the first file listed again at the end (aa-zz-aa, zz-aa-zz: its mapping is in force again); a
+  3-line table as 3 files in each of the 6 listings of aa, mm, zz.  The table in force = the lines in LISTING order.
 sdkconfig files = every ordered sequence of <=2 (quick) / <=3 (thorough) lines over
-{OLD=v, NEW=v, # OLD is not set, # NEW is not set} for the names the table mentions.
+{OLD=v, NEW=v, # OLD is not set, # NEW is not set} for the old names and the defined new names of every line of the table
+(also of a line that a later line overrides).
+Composed sdkconfig files (single-file tables): files in which ordinary lines and deprecated blocks are mixed --
+  W+L      the file the library writes with write_deprecated=True (6 configurations) + an appended override line;
+  B+L, L+B, B0+L, B+L+B, B+B+L   hand-made: block (one entry / empty) before, after, around and twice before a line;
+  L+U      a block that is never closed (everything up to the end of the file is the block);
+  thorough (1-line tables): + W+L+L, L+B+L, L+U(2 entries), and the two-block shapes with different entries;
+lines and block entries range over the same line alphabet (same name inside and outside, contradicting or not).
 
 Oracles
   (1) load(file) == load(translate(file)): option values, user values and the re-written sdkconfig, where `translate`
-      rewrites a line whose name is not defined in the tree and is mapped (last mapping wins) to a defined option:
-      OLD=v -> NEW=v (y/n swapped for `!` renames of bools), `# OLD is not set` -> `# NEW is not set` (NEW=y if inverted);
+      rewrites a line whose name is not defined in the tree and is mapped (last mapping IN LISTING ORDER wins) to a defined
+      option: OLD=v -> NEW=v (y/n swapped for `!` renames of bools), `# OLD is not set` -> `# NEW is not set` (NEW=y if inverted);
   (2) an old name whose replacement is defined never appears in missing_syms; any table / file must load without raising;
   (3) a file written with the deprecated block, loaded with the default flag, equals the same file with the block cut out,
       even when the block is edited to contradict the body; loaded with load_deprecated=True, eval_string on each alias
       gives the value that was written, no alias is listed in missing_syms, and (mention trees) the tree's own expressions
       over the alias -- X<i> `default y if <rel>`, XDEP `depends on <rel>...`, XT selected `if <rel>` -- take the value
-      that <rel> has for the written entry (<rel> is: OLD for bools, OLD < 8, OLD < 0x20, OLD = "d"; n while OLD is undefined).
+      that <rel> has for the written entry (<rel> is: OLD for bools, OLD < 8, OLD < 0x20, OLD = "d"; n while OLD is undefined);
+  (4) composed files, default flag: load(file) == load(file with every block cut out) (values, user values, re-written
+      file, missing_syms) == load(that file with the remaining lines translated); i.e. ONLY the block is ignored;
+  (5) composed files, load_deprecated=True: the defined options have the values / user values of the file with the blocks
+      cut out (lines outside a block are loaded, also when they use a name that a block lists), and the block entries
+      evaluate to what was written (entries written twice with different values, or named by an outside line, carry no
+      demand).  A block entry that names a DEFINED option is outside the statement: such files are skipped in (5).
 """
 
 from __future__ import annotations
 
 import itertools
+import os
 import re
+import shutil
 from typing import Any, Dict, Iterator, List, Optional, Tuple
 
 from .. import common, impl, kgen
@@ -37,12 +58,19 @@ ID = "C11"
 LEVEL = "exploration"
 RULE = (
     "tree shapes {plain, mention} (thorough: + mention_default, mention_depends, mention_select over the 1-line tables) x all 1- and "
-    "2-line rename tables over a 19-line alphabet incl. names with the prefix text embedded / doubled (2-line tables as one file and "
-    "split over two files; quick crosses the split tables with the plain tree only) x all ordered sdkconfig files of <=2 (quick) / <=3 (thorough) lines over the old/new names of the table in "
-    "the forms =v, `is not set`; plus, per tree x single-file table x configuration, the deprecated-block clauses (default flag and "
-    "load_deprecated=True). A mention tree is generated per table (it mentions the table's old names that are not defined options; a "
-    "table without such a name has no mention tree). distinct_nontrivial = distinct (tree, table, file) triples in which at least one "
-    "line uses a deprecated name + distinct (tree, table, configuration) triples whose written file has a deprecated block."
+    "2-line rename tables over a 19-line alphabet incl. names with the prefix text embedded / doubled, + the 3-line orderings of the "
+    "lines mapping one old name, x rename-file layouts with check-chosen directory names aa/mm/zz (1 file; the same file listed twice; "
+    "2 files listed in and against alphabetical path order; first file listed again at the end; 3 files in all 6 listings) x all ordered "
+    "sdkconfig files of <=2 (quick) / <=3 (thorough) lines over the old/new names of the table in the forms =v, `is not set` (layouts "
+    "that list a file twice, and in thorough the mention tree against path order: one line less; quick crosses the multi-file layouts "
+    "with the plain tree only); plus, per tree x single-file table: x 6 configurations the deprecated-block clauses (default flag and "
+    "load_deprecated=True), and the composed files (tool-written file + appended line; hand-made files with a block before / after / "
+    "around / twice before a line, an empty block, a never-closed block; both load flags) -- quick: 1-line tables all shapes with <=2 "
+    "free lines, 2-line tables the appended-line shape for 2 configurations; thorough: 1-line tables <=3 free lines, 2-line tables "
+    "<=2 free lines (plain tree). A mention tree is generated per table (it mentions the table's old names that are not defined "
+    "options; a table without such a name has no mention tree). distinct_nontrivial = distinct (tree, table, layout, file) tuples in "
+    "which at least one line uses a deprecated name + distinct (tree, table, configuration) triples whose written file has a "
+    "deprecated block + distinct (tree, table, composed file, flag) tuples that contain a block."
 )
 ASSUMPTIONS = [
     "a mapping to an option that is not defined carries no obligation except not raising and not disturbing other options",
@@ -51,6 +79,10 @@ ASSUMPTIONS = [
     "re-executes every reported case twice in fresh processes)",
     "a deprecated name mentioned by a Kconfig expression and NOT loaded from a requested deprecated block is an ordinary undefined "
     "symbol (evaluates to n / its own name); only the equivalence of the two spellings is demanded there",
+    "rename files are listed by absolute paths that differ only in the directory name chosen by the case (aa < mm < zz); relative "
+    "paths, symlinks and case-insensitive file systems are not explored",
+    "a never-closed deprecated block extends to the end of the file; a block entry that names a defined option is outside the "
+    "statement when the block is requested (skipped there, counted in `skipped`)",
 ]
 
 PREFIX = "CONFIG_"
@@ -173,13 +205,83 @@ def tree_files(kind: str, tab: Tuple[int, ...]) -> Optional[Dict[str, str]]:
     return kgen.render(Program(children=ch))
 
 
-def tables(tier: str) -> Iterator[Tuple[Tuple[int, ...], bool]]:
+# ---- rename-file layouts ---------------------------------------------------------------------------------------------
+# A layout is the LISTING handed to load_rename_files(), written as directory names joined by `-`; every rename file is
+# <per-table scratch dir>/<directory>/sdkconfig.rename, so the alphabetical order relation of the listed paths is fixed by
+# the layout (and is the same in the exploring and in the replaying process).  One distinct directory: that file holds
+# the whole table; otherwise the i-th distinct directory (in order of first listing) holds line i of the table.
+#   mm            one file                       mm-mm          the same file listed twice
+#   aa-zz         listed in path order           zz-aa          listed against path order
+#   aa-zz-aa / zz-aa-zz   first file listed again after the second (its mapping is in force again)
+#   3-line tables: the six listings of aa, mm, zz (line i in the i-th listed directory)
+LAYOUTS_1 = ["mm", "mm-mm"]
+LAYOUTS_2 = ["mm", "aa-zz", "zz-aa"]
+LAYOUTS_2_AGAIN = ["mm-mm", "aa-zz-aa", "zz-aa-zz"]
+LAYOUTS_3 = ["-".join(p) for p in itertools.permutations(["aa", "mm", "zz"])]
+
+
+def layout_files(tab: Tuple[int, ...], layout: str) -> Tuple[Dict[str, Tuple[int, ...]], List[str]]:
+    """({directory: lines of the alphabet in that file}, listing)"""
+    listing = layout.split("-")
+    dirs = list(dict.fromkeys(listing))
+    if len(dirs) == 1:
+        return {dirs[0]: tuple(tab)}, listing
+    assert len(dirs) == len(tab), (tab, layout)
+    return {d: (tab[i],) for i, d in enumerate(dirs)}, listing
+
+
+def effective(tab: Tuple[int, ...], layout: str) -> Tuple[int, ...]:
+    """the lines in the order in which the listing presents them (a file listed twice presents its lines twice)"""
+    content, listing = layout_files(tab, layout)
+    return tuple(i for d in listing for i in content[d])
+
+
+def layout_class(layout: str) -> str:
+    listing = layout.split("-")
+    if len(set(listing)) == 1:
+        return "one_file" if len(listing) == 1 else "one_file_listed_twice"
+    c = "listed_in_path_order" if listing == sorted(listing) else "listed_against_path_order"
+    return c + ("+file_listed_twice" if len(set(listing)) < len(listing) else "")
+
+
+def old_groups() -> List[Tuple[int, ...]]:
+    """lines of the alphabet that map the same old name (>= 3 of them): the 3-file tables"""
+    by_old: Dict[str, List[int]] = {}
+    for i, line in enumerate(ALPHABET):
+        by_old.setdefault(line.split()[0], []).append(i)
+    return [tuple(v) for v in by_old.values() if len(v) >= 3]
+
+
+def tables(tier: str) -> Iterator[Tuple[Tuple[int, ...], str]]:
     n = len(ALPHABET)
     for i in range(n):
-        yield (i,), False
+        for lay in LAYOUTS_1:
+            yield (i,), lay
     for a, b in itertools.permutations(range(n), 2):
-        yield (a, b), False
-        yield (a, b), True  # split over two files
+        for lay in LAYOUTS_2 + LAYOUTS_2_AGAIN:
+            yield (a, b), lay
+    for g in old_groups():
+        for t in itertools.permutations(g, 3):
+            for lay in LAYOUTS_3:
+                yield t, lay
+
+
+def file_length(tier: str, kind: str, tab: Tuple[int, ...], lay: str) -> int:
+    """longest sdkconfig file the (tree, table, layout) is crossed with; 0: not explored"""
+    full = 2 if tier == "quick" else 3
+    if kind not in ("plain", "mention"):
+        return full if tier != "quick" and len(tab) == 1 and lay == "mm" else 0
+    if lay == "mm":
+        return full
+    # how a table is spread over rename files only concerns the parsing of the table: quick crosses the multi-file
+    # layouts with the plain tree only
+    if kind == "mention" and tier == "quick":
+        return 0
+    if lay in LAYOUTS_2_AGAIN or lay == "mm-mm":
+        return full - 1
+    if kind == "mention" and lay == "zz-aa":
+        return full - 1
+    return full
 
 
 def mapping_of(tab: Tuple[int, ...]) -> Dict[str, Tuple[str, bool]]:
@@ -191,11 +293,13 @@ def mapping_of(tab: Tuple[int, ...]) -> Dict[str, Tuple[str, bool]]:
 
 
 def line_alphabet(tab: Tuple[int, ...]) -> List[str]:
-    m = mapping_of(tab)
+    """=v / `is not set` lines for the old and the (defined) new name of EVERY line of the table, also of a line that a later
+    line overrides (the target that is no longer in force must stay untouched by the old name)"""
     names: List[Tuple[str, str]] = []  # (name, type)
-    for old, (new, inv) in m.items():
+    for i in tab:
+        old, new, _inv = _split_line(ALPHABET[i])
         t = TYPES.get(new, "bool")
-        names.append((old, t))
+        names.append((old, OLD_TYPE[old]))
         if new in TYPES:
             names.append((new, t))
     out: List[str] = []
@@ -211,17 +315,15 @@ def line_alphabet(tab: Tuple[int, ...]) -> List[str]:
 
 
 def items(tier: str, seed: int):
-    tabs = list(tables(tier))
-    maxlen = 2 if tier == "quick" else 3
+    work: Dict[Tuple[str, int], list] = {}
+    for tab, lay in tables(tier):
+        for kind in TREE_KINDS_QUICK + TREE_KINDS_SINGLE:
+            n = file_length(tier, kind, tab, lay)
+            if n:
+                work.setdefault((kind, n), []).append((tab, lay))
     out = []
-    for kind in TREE_KINDS_QUICK:
-        # (how a table is split over rename files only concerns the parsing of the table: quick crosses it with the plain tree only)
-        ts = tabs if kind == "plain" or tier != "quick" else [t for t in tabs if not t[1]]
-        out += [{"tree": kind, "tables": ts[i:i + 6], "maxlen": maxlen} for i in range(0, len(ts), 6)]
-    if tier != "quick":
-        single = [t for t in tabs if len(t[0]) == 1]
-        for kind in TREE_KINDS_SINGLE:
-            out += [{"tree": kind, "tables": single[i:i + 6], "maxlen": maxlen} for i in range(0, len(single), 6)]
+    for (kind, n), ts in work.items():
+        out += [{"tree": kind, "tables": ts[i:i + 6], "maxlen": n, "tier": tier} for i in range(0, len(ts), 6)]
     return out
 
 
@@ -255,14 +357,40 @@ def translate(lines: List[str], m: Dict[str, Tuple[str, bool]]) -> List[str]:
     return out
 
 
-def rename_texts(tab: Tuple[int, ...], split: bool) -> List[str]:
-    if split and len(tab) == 2:
-        return [ALPHABET[tab[0]] + "\n", ALPHABET[tab[1]] + "\n"]
-    return ["".join(ALPHABET[i] + "\n" for i in tab)]
+_rename_dirs: Dict[Tuple[Tuple[int, ...], str], List[str]] = {}
 
 
-def observe(files, rtexts, text, **kw):
-    inst = impl.Inst(files, renames=rtexts)
+def rename_paths(tab: Tuple[int, ...], layout: str) -> List[str]:
+    """writes the rename files of the table (once per process and table) and returns the listing as paths; all paths share
+    the prefix up to the layout's directory name, so their order relation is the one the layout names"""
+    key = (tuple(tab), layout)
+    paths = _rename_dirs.get(key)
+    if paths is not None:
+        return paths
+    if len(_rename_dirs) > 64:
+        for ps in _rename_dirs.values():
+            shutil.rmtree(os.path.dirname(os.path.dirname(ps[0])), ignore_errors=True)
+        _rename_dirs.clear()
+    content, listing = layout_files(key[0], layout)
+    root = os.path.join(impl.wdir(), f"r{common.h64(repr(key)):016x}")
+    for d, idxs in content.items():
+        os.makedirs(os.path.join(root, d), exist_ok=True)
+        with open(os.path.join(root, d, "sdkconfig.rename"), "w") as f:
+            f.write("".join(ALPHABET[i] + "\n" for i in idxs))
+    paths = [os.path.join(root, d, "sdkconfig.rename") for d in listing]
+    assert (sorted(paths) == paths) == (sorted(listing) == listing)
+    _rename_dirs[key] = paths
+    return paths
+
+
+def make_inst(files, tab, layout: str) -> "impl.Inst":
+    inst = impl.Inst(files)
+    inst.k.load_rename_files(list(rename_paths(tab, layout)))
+    return inst
+
+
+def observe(files, tab, layout, text, **kw):
+    inst = make_inst(files, tab, layout)
     inst.load_text(text, **kw)
     k = inst.k
     return inst, {
@@ -274,7 +402,6 @@ def observe(files, rtexts, text, **kw):
 
 
 def site_of(e) -> str:
-    import os
     import traceback
 
     tb = traceback.extract_tb(e.__traceback__)
@@ -295,19 +422,19 @@ def line_class(line: str, m) -> str:
     return role + ("=" + ("set" if val is not None else "notset"))
 
 
-def check_file(files, kind, tab, split, lines: List[str], r: common.Result, cache: Optional[dict] = None) -> None:
-    m = mapping_of(tab)
-    rtexts = rename_texts(tab, split)
+def check_file(files, kind, tab, layout, lines: List[str], r: common.Result, cache: Optional[dict] = None) -> None:
+    m = mapping_of(effective(tab, layout))
     text = "".join(l + "\n" for l in lines)
     ttext = "".join(l + "\n" for l in translate(lines, m))
-    case = {"files": files, "tree": kind, "table": list(tab), "split": split, "lines": lines}
-    label = f"[tree={kind} table={[ALPHABET[i] for i in tab]}{' (2 files)' if split else ''} file={lines}]"
+    case = {"files": files, "tree": kind, "table": list(tab), "layout": layout, "lines": lines}
+    label = f"[tree={kind} table={[ALPHABET[i] for i in tab]}{' listed as ' + layout if layout != 'mm' else ''} file={lines}]"
+    lay = {} if layout == "mm" else {"rename_files": layout_class(layout)}
     classes = sorted(line_class(l, m) for l in lines)
     r.evals += 1
     try:
-        _, a = observe(files, rtexts, text)
+        _, a = observe(files, tab, layout, text)
     except Exception as e:  # noqa: BLE001
-        r.violation({"kind": "load_raises", "tree": kind, "exc": type(e).__name__, "site": site_of(e), "lines": classes}, f"{label} load raised {type(e).__name__}: {e}", case)
+        r.violation({"kind": "load_raises", "tree": kind, "exc": type(e).__name__, "site": site_of(e), "lines": classes, **lay}, f"{label} load raised {type(e).__name__}: {e}", case)
         return
     uses_old = text != ttext
     if not uses_old:
@@ -316,38 +443,73 @@ def check_file(files, kind, tab, split, lines: List[str], r: common.Result, cach
         b = cache[ttext]
     else:
         try:
-            _, b = observe(files, rtexts, ttext)
+            _, b = observe(files, tab, layout, ttext)
         except Exception as e:  # noqa: BLE001
-            r.violation({"kind": "load_raises", "tree": kind, "exc": type(e).__name__, "site": site_of(e), "lines": ["translated"] + classes},
+            r.violation({"kind": "load_raises", "tree": kind, "exc": type(e).__name__, "site": site_of(e), "lines": ["translated"] + classes, **lay},
                         f"{label} loading the translation {translate(lines, m)} raised {type(e).__name__}: {e}", case)
             return
         if cache is not None:
             cache[ttext] = b
     if uses_old:
-        r.outcome((kind, tab, split, tuple(lines)))
+        r.outcome((kind, tab, layout, tuple(lines)))
     for key in ("values", "user", "config"):
         if a[key] != b[key]:
             if key == "config":
                 d = f"{a[key]!r} vs {b[key]!r}"
             else:
                 d = {n: (a[key][n], b[key][n]) for n in a[key] if a[key][n] != b[key][n]}
-            r.violation({"kind": "old_name_differs_from_new_name", "tree": kind, "what": key, "lines": classes},
+            r.violation({"kind": "old_name_differs_from_new_name", "tree": kind, "what": key, "lines": classes, **lay},
                         f"{label} loading the file vs. its translation {translate(lines, m)} differ in {key}: {d}", case)
             break
     bad = [n for n, _v in a["missing"] if n in m and m[n][0] in TYPES and n not in TYPES]
     if bad:
-        r.violation({"kind": "deprecated_name_reported_unknown", "tree": kind, "lines": classes}, f"{label} missing_syms lists deprecated names {bad}", case)
+        r.violation({"kind": "deprecated_name_reported_unknown", "tree": kind, "lines": classes, **lay}, f"{label} missing_syms lists deprecated names {bad}", case)
 
 
-def check_block(files, kind, tab, split, assign: Dict[str, str], r: common.Result) -> None:
-    m = mapping_of(tab)
-    rtexts = rename_texts(tab, split)
-    case = {"files": files, "tree": kind, "table": list(tab), "split": split, "block_assign": assign}
+def block_entries(lines: List[str]) -> Dict[str, Optional[str]]:
+    """{alias: value written (None: `is not set`)} of the block lines that name something that is not a defined option"""
+    written: Dict[str, Optional[str]] = {}
+    for line in lines:
+        if not re.match(r"CONFIG_[^=]+=|# CONFIG_[^ ]+ is not set", line):
+            continue
+        name, val = parse_line(line)
+        if name not in TYPES:
+            written[name] = val
+    return written
+
+
+def alias_clauses(k2, written, m, olds, kind, label, case, r: common.Result, extra: dict) -> None:
+    """load_deprecated=True: every block entry evaluates to what was written and is not reported unknown"""
+    for name, val in written.items():
+        # is the alias also a node-less symbol of the tree because an expression of the tree mentions it?
+        how = "mentioned_in_kconfig" if name in olds else "not_in_kconfig"
+        new = m.get(name, (None, False))[0]
+        if TYPES.get(new) != "bool":
+            # non-bool aliases: compare by relation
+            if val is not None and new in TYPES:
+                ev = k2.eval_string(f"{name} = {val}")
+                if ev != 2:
+                    esc = {"written": "with_escapes"} if "\\" in val else {}  # (a string entry is written escaped, as the option's own line)
+                    r.violation({"kind": "alias_evaluates_differently", "tree": kind, "alias": how, "type": TYPES[new], **esc, **extra}, f"{label} load_deprecated: `{name} = {val}` evaluates to {ev}", case)
+            continue
+        want = 2 if val == "y" else 0
+        ev = k2.eval_string(name)
+        if ev != want:
+            r.violation({"kind": "alias_evaluates_differently", "tree": kind, "alias": how, "type": "bool", "written": "y" if want else "n", **extra}, f"{label} load_deprecated: alias {name} written as {'y' if want else 'n'} evaluates to {ev}", case)
+    lost = [n for n, _v in k2.missing_syms if n in written]
+    if lost:
+        hows = sorted({"mentioned_in_kconfig" if n in olds else "not_in_kconfig" for n in lost})
+        r.violation({"kind": "requested_block_entry_reported_unknown", "tree": kind, "alias": "+".join(hows), **extra}, f"{label} load_deprecated: missing_syms lists the block entries {lost}", case)
+
+
+def check_block(files, kind, tab, layout, assign: Dict[str, str], r: common.Result) -> None:
+    m = mapping_of(effective(tab, layout))
+    case = {"files": files, "tree": kind, "table": list(tab), "layout": layout, "block_assign": assign}
     label = f"[tree={kind} table={[ALPHABET[i] for i in tab]} cfg={assign} deprecated block]"
     olds = mentioned_olds(tab) if kind != "plain" else []
     r.evals += 1
     try:
-        inst = impl.Inst(files, renames=rtexts)
+        inst = make_inst(files, tab, layout)
         for n, v in assign.items():
             inst.k.syms[n].set_value(v)
         full = inst.config_text(write_deprecated=True)
@@ -384,44 +546,20 @@ def check_block(files, kind, tab, split, assign: Dict[str, str], r: common.Resul
 
     contra = re.sub(r"\n# Deprecated options for backward compatibility\n(.*?)# End of deprecated options\n", flip, full, flags=re.S)
     try:
-        _, ref = observe(files, rtexts, plain)
+        _, ref = observe(files, tab, layout, plain)
         for tag, txt in (("as_written", full), ("contradicting", contra)):
-            _, got = observe(files, rtexts, txt)
+            _, got = observe(files, tab, layout, txt)
             for key in ("values", "user", "config", "missing"):
                 if got[key] != ref[key]:
                     r.violation({"kind": "block_not_ignored", "tree": kind, "block": tag, "what": key}, f"{label} ({tag} block) default load differs from the block-less file in {key}", case)
                     break
         # explicit request: aliases evaluate to what was written
-        inst2 = impl.Inst(files, renames=rtexts)
+        inst2 = make_inst(files, tab, layout)
         inst2.load_text(full, load_deprecated=True)
         k2 = inst2.k
         blk = re.search(r"# Deprecated options for backward compatibility\n(.*?)# End of deprecated options", full, re.S).group(1)
-        written: Dict[str, Optional[str]] = {}
-        for line in blk.splitlines():
-            if not re.match(r"CONFIG_[^=]+=|# CONFIG_[^ ]+ is not set", line):
-                continue
-            name, val = parse_line(line)
-            if name in TYPES:
-                continue
-            written[name] = val
-            # is the alias also a node-less symbol of the tree because an expression of the tree mentions it?
-            how = "mentioned_in_kconfig" if name in olds else "not_in_kconfig"
-            new = m.get(name, (None, False))[0]
-            if TYPES.get(new) != "bool":
-                # non-bool aliases: compare by relation
-                if val is not None and new in TYPES:
-                    ev = k2.eval_string(f"{name} = {val}")
-                    if ev != 2:
-                        r.violation({"kind": "alias_evaluates_differently", "tree": kind, "alias": how, "type": TYPES[new]}, f"{label} load_deprecated: `{name} = {val}` evaluates to {ev}", case)
-                continue
-            want = 2 if val == "y" else 0
-            ev = k2.eval_string(name)
-            if ev != want:
-                r.violation({"kind": "alias_evaluates_differently", "tree": kind, "alias": how, "type": "bool", "written": "y" if want else "n"}, f"{label} load_deprecated: alias {name} written as {'y' if want else 'n'} evaluates to {ev}", case)
-        lost = [n for n, _v in k2.missing_syms if n in written]
-        if lost:
-            hows = sorted({"mentioned_in_kconfig" if n in olds else "not_in_kconfig" for n in lost})
-            r.violation({"kind": "requested_block_entry_reported_unknown", "tree": kind, "alias": "+".join(hows)}, f"{label} load_deprecated: missing_syms lists the block entries {lost}", case)
+        written = block_entries(blk.splitlines())
+        alias_clauses(k2, written, m, olds, kind, label, case, r, {})
         vals_after = inst2.values()
         # the tree's own expressions over the aliases (mention trees)
         if olds:
@@ -445,7 +583,214 @@ def check_block(files, kind, tab, split, assign: Dict[str, str], r: common.Resul
 
 
 BLOCK_CFGS = [{}, {"B": "y"}, {"B": "n"}, {"B": "y", "BH": "n", "I": "7", "S": "v w", "H": "0x2a", "E_CONFIG_B": "y", "E_CONFIG_S": "v w"},
-              {"B": "y", "DEFINED_OLD": "y", "I": "50"}]
+              {"B": "y", "DEFINED_OLD": "y", "I": "50"}, {"S": 'q"x', "E_CONFIG_S": "back\\slash"}]
+
+
+BEGIN = "# Deprecated options for backward compatibility"
+END = "# End of deprecated options"
+
+
+def cut_blocks(text: str) -> str:
+    """the text without its deprecated blocks (begin marker .. end marker, or .. end of file when never closed)"""
+    out, inside = [], False
+    for line in text.splitlines(keepends=True):
+        if line.strip() == BEGIN:
+            inside = True
+        elif line.strip() == END and inside:
+            inside = False
+        elif not inside:
+            out.append(line)
+    return "".join(out)
+
+
+# A composed sdkconfig file is a sequence of tokens
+#   ["L", line]       an ordinary line
+#   ["B", [lines]]    a deprecated block with these entries           ["U", [lines]]  the same, never closed
+#   ["W", assign]     the file the library writes (write_deprecated=True) for the configuration `assign`
+def shape_of(tokens) -> str:
+    return "+".join(t[0] + ("0" if t[0] in "BU" and not t[1] else "") for t in tokens)
+
+
+def written_text(files, tab, layout, assign: Dict[str, str], memo: Optional[dict] = None) -> str:
+    key = ("W", tuple(sorted(assign.items())))
+    if memo is not None and key in memo:
+        return memo[key]
+    inst = make_inst(files, tab, layout)
+    for n, v in assign.items():
+        inst.k.syms[n].set_value(v)
+    t = inst.config_text(write_deprecated=True)
+    if memo is not None:
+        memo[key] = t
+    return t
+
+
+def render_tokens(files, tab, layout, tokens, memo: Optional[dict] = None) -> str:
+    out = []
+    for t in tokens:
+        if t[0] == "L":
+            out.append(t[1] + "\n")
+        elif t[0] == "B":
+            out.append(BEGIN + "\n" + "".join(l + "\n" for l in t[1]) + END + "\n")
+        elif t[0] == "U":
+            out.append(BEGIN + "\n" + "".join(l + "\n" for l in t[1]))
+        else:
+            out.append(written_text(files, tab, layout, t[1], memo))
+    return "".join(out)
+
+
+def check_composed(files, kind, tab, layout, tokens, r: common.Result, memo: Optional[dict] = None) -> None:
+    """default flag: a file with deprecated blocks anywhere == the same file with the blocks cut out == that file with the
+    lines outside the blocks translated to the new names"""
+    m = mapping_of(effective(tab, layout))
+    shape = shape_of(tokens)
+    case = {"files": files, "tree": kind, "table": list(tab), "layout": layout, "composed": tokens}
+    label = f"[tree={kind} table={[ALPHABET[i] for i in tab]} composed file {tokens}]"
+    memo = memo if memo is not None else {}
+    r.evals += 1
+    try:
+        text = render_tokens(files, tab, layout, tokens, memo)
+    except Exception as e:  # noqa: BLE001
+        r.violation({"kind": "write_raises", "tree": kind, "exc": type(e).__name__, "site": site_of(e)}, f"{label} writing raised {type(e).__name__}: {e}", case)
+        return
+    if BEGIN not in text:
+        r.skipped += 1  # the written file has no block (no alias of a defined option): nothing composed
+        return
+    ttokens = [["L", translate([t[1]], m)[0]] if t[0] == "L" else t for t in tokens]
+    refs = [("block_cut_out", cut_blocks(text), ("values", "user", "config", "missing"))]
+    if ttokens != tokens:
+        refs.append(("block_cut_out_and_translated", cut_blocks(render_tokens(files, tab, layout, ttokens, memo)), ("values", "user", "config")))
+    r.outcome((kind, tab, "composed", repr(tokens)))
+    try:
+        _, got = observe(files, tab, layout, text)
+        for tag, rtext, keys in refs:
+            ref = memo.get(("R", rtext))
+            if ref is None:
+                _, ref = observe(files, tab, layout, rtext)
+                memo[("R", rtext)] = ref
+            for key in keys:
+                if got[key] != ref[key]:
+                    if key in ("values", "user"):
+                        d = {n: (got[key][n], ref[key][n]) for n in got[key] if got[key][n] != ref[key][n]}
+                    else:
+                        d = f"{got[key]!r} vs {ref[key]!r}"
+                    r.violation({"kind": "file_with_block_differs_from_file_without", "tree": kind, "shape": shape, "reference": tag, "what": key},
+                                f"{label} default load differs from the file with the block(s) cut out"
+                                f"{' and the other lines translated' if tag != 'block_cut_out' else ''} in {key} (got, want): {d}", case)
+                    break
+    except Exception as e:  # noqa: BLE001
+        r.violation({"kind": "block_load_raises", "tree": kind, "shape": shape, "exc": type(e).__name__, "site": site_of(e)}, f"{label} raised {type(e).__name__}: {e}", case)
+        return
+    bad = [n for n, _v in got["missing"] if n in m and m[n][0] in TYPES and n not in TYPES]
+    if bad:
+        r.violation({"kind": "deprecated_name_reported_unknown", "tree": kind, "shape": shape}, f"{label} missing_syms lists deprecated names {bad}", case)
+
+
+def block_lines(text: str) -> List[str]:
+    out, inside = [], False
+    for line in text.splitlines():
+        if line.strip() == BEGIN:
+            inside = True
+        elif line.strip() == END and inside:
+            inside = False
+        elif inside:
+            out.append(line)
+    return out
+
+
+def check_composed_requested(files, kind, tab, layout, tokens, r: common.Result, memo: Optional[dict] = None) -> None:
+    """load_deprecated=True on a composed file: the lines outside the blocks are loaded as in the file without the blocks, the
+    block entries evaluate to what was written.  Out of the statement (skipped): a block entry that names a defined option."""
+    m = mapping_of(effective(tab, layout))
+    shape = shape_of(tokens)
+    case = {"files": files, "tree": kind, "table": list(tab), "layout": layout, "composed": tokens, "requested": True}
+    label = f"[tree={kind} table={[ALPHABET[i] for i in tab]} composed file {tokens} load_deprecated=True]"
+    memo = memo if memo is not None else {}
+    olds = mentioned_olds(tab) if kind != "plain" else []
+    r.evals += 1
+    try:
+        text = render_tokens(files, tab, layout, tokens, memo)
+    except Exception as e:  # noqa: BLE001
+        r.violation({"kind": "write_raises", "tree": kind, "exc": type(e).__name__, "site": site_of(e)}, f"{label} writing raised {type(e).__name__}: {e}", case)
+        return
+    entries = [parse_line(l) for l in block_lines(text) if re.match(r"CONFIG_[^=]+=|# CONFIG_[^ ]+ is not set", l)]
+    if BEGIN not in text or any(n in TYPES for n, _v in entries):
+        r.skipped += 1
+        return
+    vals: Dict[str, set] = {}
+    for n, v in entries:
+        vals.setdefault(n, set()).add(v)
+    outside = {parse_line(t[1])[0] for t in tokens if t[0] == "L"}
+    again = sorted(n for n in vals if n in outside)
+    written = {n: next(iter(v)) for n, v in vals.items() if len(v) == 1 and n not in outside}
+    r.outcome((kind, tab, "composed_requested", repr(tokens)))
+    try:
+        rtext = cut_blocks(text)
+        ref = memo.get(("R", rtext))
+        if ref is None:
+            _, ref = observe(files, tab, layout, rtext)
+            memo[("R", rtext)] = ref
+        inst2 = make_inst(files, tab, layout)
+        inst2.load_text(text, load_deprecated=True)
+        got = {"values": inst2.values(), "user": {s.name: s._user_value for s in inst2.k.unique_defined_syms}}
+        for key in ("values", "user"):
+            d = {n: (got[key][n], ref[key][n]) for n in TYPES if got[key][n] != ref[key][n]}
+            if d:
+                r.violation({"kind": "lines_outside_requested_block_differ", "tree": kind, "shape": shape, "what": key,
+                             "outside_line_names_a_block_entry": bool(again)},
+                            f"{label} options differ from the file with the block(s) cut out in {key} (got, want): {d}", case)
+                break
+        alias_clauses(inst2.k, written, m, olds, kind, label, case, r, {"shape": shape})
+    except Exception as e:  # noqa: BLE001
+        r.violation({"kind": "block_load_raises", "tree": kind, "shape": shape, "requested": True, "exc": type(e).__name__, "site": site_of(e)}, f"{label} raised {type(e).__name__}: {e}", case)
+
+
+def composed_files(la: List[str], level: int) -> Iterator[list]:
+    """level 1: overrides appended to a tool-written file; 2: + hand-made files with <=2 free lines; 3: + 3 free lines"""
+    L = lambda x: ["L", x]  # noqa: E731
+    B = lambda *x: ["B", list(x)]  # noqa: E731
+    U = lambda *x: ["U", list(x)]  # noqa: E731
+    if level < 1:
+        return
+    cfgs = BLOCK_CFGS if level >= 2 else [BLOCK_CFGS[0], BLOCK_CFGS[3]]
+    for cfg in cfgs:
+        for t in la:
+            yield [["W", cfg], L(t)]
+    if level < 2:
+        return
+    for t in la:
+        yield [B(), L(t)]
+    for e in la:
+        for t in la:
+            yield [B(e), L(t)]          # block first, a line follows (same / other name, contradicting or not)
+            yield [L(t), B(e)]          # block at the end
+            yield [L(t), U(e)]          # block never closed: the rest of the file belongs to it
+            yield [B(e), L(t), B(e)]    # two blocks
+            yield [B(e), B(e), L(t)]
+    if level < 3:
+        return
+    for cfg in cfgs:
+        for t in la:
+            for u in la:
+                if u != t:
+                    yield [["W", cfg], L(t), L(u)]
+    for e in la:
+        for t in la:
+            for u in la:
+                yield [L(t), B(e), L(u)]
+                yield [L(t), U(e, u)]
+                if u != e:
+                    yield [B(e), L(t), B(u)]
+                    yield [B(e), B(u), L(t)]
+
+
+def composed_level(tier: str, kind: str, tab, layout: str) -> int:
+    if layout != "mm":
+        return 0
+    if tier == "quick":
+        return 2 if len(tab) == 1 else 1
+    if len(tab) == 1:
+        return 3
+    return 2 if kind == "plain" else 1
 
 
 def run_item(item) -> common.Result:
@@ -453,34 +798,46 @@ def run_item(item) -> common.Result:
     kind = item["tree"]
     nfiles = 0
     sample_files = None
-    for tab, split in item["tables"]:
+    for tab, layout in item["tables"]:
         tab = tuple(tab)
         files = tree_files(kind, tab)
         if files is None:
             continue  # no old name that a tree could mention
         r.programs += 1
-        sample_files = sample_files or (files, tab)
+        sample_files = sample_files or (files, tab, layout)
         la = line_alphabet(tab)
         cache: dict = {}
         for n in range(1, item["maxlen"] + 1):
             for lines in itertools.permutations(la, n):
-                check_file(files, kind, tab, split, list(lines), r, cache)
+                check_file(files, kind, tab, layout, list(lines), r, cache)
                 nfiles += 1
-        if not split:
+        if layout == "mm":
             for cfg in BLOCK_CFGS:
-                check_block(files, kind, tab, split, cfg, r)
+                check_block(files, kind, tab, layout, cfg, r)
+        memo: dict = {}
+        for tokens in composed_files(la, composed_level(item.get("tier", "quick"), kind, tab, layout)):
+            check_composed(files, kind, tab, layout, tokens, r, memo)
+            check_composed_requested(files, kind, tab, layout, tokens, r, memo)
+            r.count("composed_files")
     if sample_files:
-        files, tab = sample_files
-        r.sample = {"tree": kind, "kconfig": files["Kconfig"], "rename_table": [ALPHABET[i] for i in tab],
-                    "sdkconfig_files_per_table": nfiles // max(1, len(item["tables"])), "example_file": line_alphabet(tab)[:2]}
+        files, tab, layout = sample_files
+        content, listing = layout_files(tab, layout)
+        r.sample = {"tree": kind, "kconfig": files["Kconfig"], "rename_files": {d + "/sdkconfig.rename": [ALPHABET[i] for i in idxs] for d, idxs in content.items()},
+                    "rename_files_listed_as": listing, "sdkconfig_files_per_table": nfiles // max(1, len(item["tables"])), "example_file": line_alphabet(tab)[:2]}
     return r
 
 
 def replay(case) -> List[dict]:
     r = common.Result()
     kind = case.get("tree", "plain")
+    layout = case["layout"] if "layout" in case else ("aa-zz" if case.get("split") else "mm")  # (`split`: replay files of older versions)
+    tab = tuple(case["table"])
     if "lines" in case:
-        check_file(case["files"], kind, tuple(case["table"]), case["split"], case["lines"], r)
+        check_file(case["files"], kind, tab, layout, case["lines"], r)
+    elif "composed" in case and case.get("requested"):
+        check_composed_requested(case["files"], kind, tab, layout, case["composed"], r)
+    elif "composed" in case:
+        check_composed(case["files"], kind, tab, layout, case["composed"], r)
     else:
-        check_block(case["files"], kind, tuple(case["table"]), case["split"], case["block_assign"], r)
+        check_block(case["files"], kind, tab, layout, case["block_assign"], r)
     return r.viols
